@@ -409,6 +409,71 @@ def noninterference(chk, case, obs, I, salt):
         fail(f"backend {j} was not asked, yet the result changed from {v1} to {v2}")
 
 
-def finish(chk):
+def _fails_same(case, monitor, key, I):
+    probe = vlib.Check("C09", "Routing")
+    try:
+        obs = I.run_case(copy.deepcopy(case), salt=0)
+        check_case(probe, case, obs, I, salt=0, two_run=(monitor == "noninterference"))
+    except Exception:  # noqa: BLE001
+        return None
+    for mf in probe.monitor_failures:
+        if mf["monitor"] == monitor and mf["key"] == key:
+            return mf
+    return None
+
+
+def shrink_case(case, monitor, key, I):
+    """Delta-debug a failing case: fewer request URIs, fewer scripted answers, fewer backends."""
+    cur = copy.deepcopy(case)
+    if isinstance(cur["op"].get("uris"), list) and len(cur["op"]["uris"]) > 1:
+        def fails(us):
+            c = copy.deepcopy(cur)
+            c["op"]["uris"] = us
+            return _fails_same(c, monitor, key, I) is not None
+        cur["op"]["uris"] = vlib.shrink_list(cur["op"]["uris"], fails, max_steps=60)
+    while len(cur["backends"]) > 1:  # indices must stay stable: only drop from the end
+        c = copy.deepcopy(cur)
+        c["backends"].pop()
+        if _fails_same(c, monitor, key, I) is None:
+            break
+        cur = c
+    for b in cur["backends"]:
+        for m in list(b["answers"]):
+            c = copy.deepcopy(cur)
+            saved = b["answers"].pop(m)
+            if _fails_same(cur, monitor, key, I) is None:
+                b["answers"][m] = saved
+            del c
+    if cur.get("mixer") is not None:
+        c = copy.deepcopy(cur)
+        c["mixer"] = None
+        if _fails_same(c, monitor, key, I) is not None:
+            cur = c
+    return cur
+
+
+def finish(chk, I=None):
+    """Shrink the smallest failing case of every unlisted (monitor, key) group."""
     global _noninterference_rng
     _noninterference_rng = None
+    if I is None or not chk.monitor_failures:
+        return
+    findings = vlib.load_findings(chk.prop)
+    groups = {}
+    for mf in chk.monitor_failures:
+        if any(vlib.finding_matches(e, mf["monitor"], mf["key"]) for e in findings):
+            continue
+        case = mf["case"].get("case") if isinstance(mf["case"], dict) else None
+        if not case or "backends" not in case:
+            continue
+        k = (mf["monitor"], repr(sorted(mf["key"].items())))
+        size = len(repr(case))
+        if k not in groups or size < groups[k][0]:
+            groups[k] = (size, mf, case)
+    for _size, mf, case in list(groups.values())[:6]:
+        small = shrink_case(case, mf["monitor"], mf["key"], I)
+        again = _fails_same(small, mf["monitor"], mf["key"], I)
+        if again is not None and len(repr(small)) < len(repr(case)):
+            again = dict(again)
+            again["what"] = again["what"] + " [shrunk]"
+            chk.monitor_failures.append(again)
